@@ -8,8 +8,8 @@ for p in sorted(glob.glob(os.path.join(V, "props", "C[0-9]*.json"))):
         continue
     c = json.load(open(p))
     pid = c["id"]
-    if c.get("disabled"):
-        continue
+    if c.get("disabled") or not c.get("ready"):
+        continue   # "ready": true is set by the integrator once the check is reviewed and green
     checks.append({
         "property_id": pid,
         "quick_cmd": "./check %s --tier quick" % pid,
